@@ -52,6 +52,20 @@ def _oshape(o):
     return type(o).__name__
 
 
+def _eqdup(o):
+    """does a list hold two members that compare (and hash) equal although they are different values, like (True,) and (1,)?  pyanalyze
+    unites the literal members of a list through a set of KnownValues and keeps only the first of them"""
+    if isinstance(o, list):
+        for i, a in enumerate(o):
+            for b in o[i + 1:]:
+                try:
+                    if a == b and repr(a) != repr(b) and type(a) is type(b):
+                        return "1"
+                except Exception:
+                    pass
+    return "0"
+
+
 def _judge_pairs(res, tier, tsrcs, only_obj=None, base=0):
     from pyanalyze.runtime import is_assignable
     from ref.member import Unsupported, member
@@ -81,7 +95,7 @@ def _judge_pairs(res, tier, tsrcs, only_obj=None, base=0):
             res.validated += 1
             res.outcomes["api:member=%s/assignable=%s" % (m, p)] += 1
             if p is not m:
-                sig = {"route": "api", "kind": "accepts-nonmember" if p is True else ("rejects-member" if p is False else p), "type": _tshape(ts), "obj": _oshape(o)}
+                sig = {"route": "api", "kind": "accepts-nonmember" if p is True else ("rejects-member" if p is False else p), "type": _tshape(ts), "obj": _oshape(o), "eqdup": _eqdup(o)}
                 res.violation(sig, {"type": ts, "obj": osrc, "order": order},
                               "is_assignable(%s, %s) = %s but member = %s" % (osrc, ts, p, m))
             lines.append("    x%d: %s = %s" % (oi, ts, osrc))
@@ -110,7 +124,7 @@ def _judge_pairs(res, tier, tsrcs, only_obj=None, base=0):
                 res.violation({"route": "source", "kind": "unexpected-code", "codes": ",".join(sorted(other)), "type": _tshape(ts), "obj": _oshape(o)},
                               {"type": ts, "obj": osrc, "order": order}, "x: %s = %s gives %s" % (ts, osrc, ds))
             elif diagnosed is m:
-                sig = {"route": "source", "kind": "accepts-nonmember" if m is False else "rejects-member", "type": _tshape(ts), "obj": _oshape(o)}
+                sig = {"route": "source", "kind": "accepts-nonmember" if m is False else "rejects-member", "type": _tshape(ts), "obj": _oshape(o), "eqdup": _eqdup(o)}
                 res.violation(sig, {"type": ts, "obj": osrc, "order": order},
                               "x: %s = %s is %s but member = %s%s" % (ts, osrc, "diagnosed" if diagnosed else "not diagnosed", m,
                                                                      (": " + ds[0][1].split("\n")[0]) if ds else ""))
